@@ -283,9 +283,12 @@ def run(ctx):
     for g, e, v in res:
         outs[e['out']] = outs.get(e['out'], 0) + 1
     ctx.extra['outcomes'] = outs
-    ctx.extra['not_covered'] = 'long-descriptor (LPAE) walks, stage 2 and faults taken to Hyp mode are reported as unmodelled and not claimed'
+    ctx.extra['not_covered'] = ('stage 2 translation and faults taken to Hyp mode are reported as unmodelled and not claimed; long-descriptor-format '
+                                'faults reach the emulator\'s mock hook (fault / no-fault decision compared, not DFSR)')
     ctx.extra['rule'] = ('random short-descriptor tables in RAM x TTBCR.N 0..7/PD0/PD1 x DACR x SCTLR.{M,AFE,TRE,EE} x FCSE x '
-                         'VAs at block and TTBR split boundaries, through translate_address() and LDR/STR')
+                         'VAs at block and TTBR split boundaries, through translate_address() and LDR/STR; random long-descriptor '
+                         '(LPAE) tables x T0SZ/T1SZ/EPD x MAIR x SCTLR.EE; every MC_LPAE scenario (quick: every 3rd) rebuilt in RAM '
+                         'from the bytes TLC printed')
     faults = [x for x in res if x[1]['out'] == 'dabort'][:2]
     for g, e, v in faults + res[:1]:
         ctx.sample({'group': g.name, 'meta': g.meta.get(e['id']), 'act': e['act'], 'out': e['out'], 'res': e.get('res'),
